@@ -201,6 +201,17 @@ class FeArray(np.ndarray):
                 kwargs = {**kwargs, "where": where}
             else:
                 inputs = FeArray._align(inputs)
+        elif ufunc is np.matmul and method == "__call__" and set(kwargs) <= {"out"}:
+            # np.matmul(a, b) is `a @ b`: numpy would take the (Ne, nPg) axes of a scalar or
+            # vector field for matrix axes, the operator knows that they are not
+            left, right = (_Evaluate(op) for op in inputs)
+            if any(isinstance(op, FeArray) and op._ndim < 2 for op in (left, right)):
+                res = left @ right
+                if kwargs:
+                    (out,) = kwargs["out"]
+                    out[...] = res
+                    return out
+                return res
 
         # ndarray refuses to run a ufunc on a subclass that overrides __array_ufunc__, so hand
         # it plain views -- of the `out` and `where` operands too, or the call comes straight
